@@ -215,6 +215,8 @@ def _extract_tree_helper(f: FuncInfo, bias: int, want_yield_on: bool):
                 facts += 1
                 return
             raise Outside("keeps only zero-sized nodes")
+        if l[0] == {"E": 1, "B": -1} and l[1] > 0:
+            return      # size + k with k > 0 is never zero: the test filters nothing
         raise Outside("truthiness of %s (= %s) is not a size test" % (unparse(t), l))
 
     def block(stmts: List[ast.stmt]) -> bool:
